@@ -37,7 +37,7 @@ ALPHABET = LOCAL + RECV
 # generated sequences also move the two INITIAL_WINDOW_SIZE settings between 0 and 65535 (peer's: our sending window
 # on live streams goes to zero or below; ours, acknowledged at once: the streams' receiving windows do), because
 # flow-control checks sit next to the state checks and must not replace or precede them
-ALPHABET_GEN = ALPHABET + ['R:iws', 'L:iws']
+ALPHABET_GEN = ALPHABET + ['R:iws', 'L:iws', 'L:badprio', 'L:limit']
 CONTEXTS = ['client-idle', 'server-idle', 'reserved-local', 'reserved-remote', 'upgraded-client', 'upgraded-server',
             'client-idle-even', 'server-idle-even', 'client-busy-even', 'server-busy-even']
 SEND_OPENERS = {'client-idle': ['L:final'], 'server-idle': ['R:final', 'L:final'], 'reserved-local': ['L:final'],
@@ -173,6 +173,31 @@ def local_step(world, name, r, tag):
             r.violate('C06:send:iws:%s:settings-change-failed' % tag, '%s %s %r' % (o.brief(), o2.brief(), o2.frames))
             return 'stop'
         r.labels.add('local-initial-window-size-changed')
+        return 'continue'
+    elif name == 'badprio':
+        # a header block with an out-of-range priority weight: refused before any state machine is asked, whatever
+        # the state of the stream - and therefore without moving it
+        o = s.call('send_headers', t, final_list(world, True), priority_weight=0)
+        r.step('call', 'send_headers with invalid priority weight', o.brief())
+        if o.ok:
+            r.violate('C06:send:badprio:%s:accepted' % tag, repr(o.frames)[:100])
+            return 'stop'
+        if o.out:
+            r.violate('C06:send:badprio:%s:refused-call-emitted' % tag, o.out.hex()[:60])
+        r.labels.add('invalid-priority-refused')
+        return 'rejected'
+    elif name == 'limit':
+        # our MAX_CONCURRENT_STREAMS is set to the number of streams the peer has open right now (acknowledged at
+        # once): a limit that is reached concerns new streams only, never frames on streams that exist or existed
+        v = m.open_count(False)
+        o = s.call('update_settings', {wire.S_MAX_CONCURRENT_STREAMS: v})
+        o2 = s.feed(wire.settings(ack=True)) if o.ok else o
+        r.step('call', 'update_settings MAX_CONCURRENT_STREAMS', v, o.brief(), 'acknowledged', o2.brief())
+        if not o.ok or not o2.ok:
+            r.violate('C06:send:limit:%s:settings-change-failed' % tag, '%s %s' % (o.brief(), o2.brief()))
+            return 'stop'
+        m.local_max_streams = v
+        r.labels.add('stream-limit-reached')
         return 'continue'
     elif name in ('data', 'data+es'):
         es = name == 'data+es'
